@@ -27,6 +27,16 @@ func (g *Generator) generateEnumDefinitions(file *jen.File) {
 	}
 }
 
+// enumValueName is the name of the constant of an enum value. A constructor named like its type
+// (null#56730bcc = Null) gets the suffix Obj, as structs behind an interface do.
+func enumValueName(constructor, enumType nativeName) goifiedName {
+	if goify(constructor, true) == goify(enumType, true) {
+		return goify(constructor+"Obj", true)
+	}
+
+	return goify(constructor, true)
+}
+
 func (g *Generator) generateSpecificEnum(enumType string, enumValues []enum) []jen.Code {
 	total := make([]jen.Code, 0)
 
@@ -38,7 +48,7 @@ func (g *Generator) generateSpecificEnum(enumType string, enumValues []enum) []j
 	opc := make([]jen.Code, len(enumValues))
 	cases := make([]jen.Code, len(enumValues))
 	for i, id := range enumValues {
-		name := goify(id.Name, true)
+		name := enumValueName(id.Name, enumType)
 
 		opc[i] = jen.Id(name).Id(typeID).Op("=").Id(fmt.Sprintf("%#v", id.CRC))
 		cases[i] = jen.Case(jen.Id(typeID).Call(jen.Id(fmt.Sprintf("%#v", id.CRC)))).Block(jen.Return(jen.Lit(id.Name)))
